@@ -339,6 +339,11 @@ class Session:
         t0 = time.time()
         try:
             rec = self._prove(oid, ctx, goal, hyps, function, replay, what, holes, timeout_ms or self.timeout_ms, nl_budget_ms)
+            if rec.get("status") == "undecided" and "timeout" in str(rec.get("reason")):
+                # a timeout is not a verdict and often only load on the machine: one retry with three times the budget (also for the nonlinear-first budget)
+                self.results.remove(rec)
+                rec = self._prove(oid, ctx, goal, hyps, function, replay, what, holes, 3 * (timeout_ms or self.timeout_ms), (3 * nl_budget_ms) if nl_budget_ms else nl_budget_ms)
+                rec["retried_after_timeout"] = True
             if candidate_only and rec.get("status") == "failed":
                 # one side of the obligation is an ABSTRACTED library (uninterpreted law): a counter-model is only a candidate - a violation only if the native replay reproduces it
                 rec["abstraction_incomplete"] = True
